@@ -19,6 +19,11 @@ type Runner struct {
 	Dir   string
 	Depth int  // nesting of crash points inside recovering Opens
 	Twice bool // recover every image twice (C04 idempotence)
+	// FailOpen: before some images are reopened, an Open attempt is made that fails with an injected
+	// file-system error at a seeded call (a transient fault, e.g. EMFILE); the process exits and the
+	// directory is opened again.  The property speaks about the next SUCCESSFUL Open.
+	FailOpen    bool
+	FailedOpens int
 	// ReadBack after every mutating call.
 	ReadEvery bool
 	// Alt alternates fs.OS and fs.OSMMap between sessions.
@@ -59,7 +64,7 @@ func NewRunner(rec *Rec, p *Program, rp RunParams) *Runner {
 		rp.HashSeed = CurrentHashSeed()
 	}
 	r := &Runner{Mode: mode, Rng: rand.New(rand.NewSource(seed)), Dir: "db", seen: map[[3]uint64]bool{}, PowerLimit: rp.PLimit,
-		Depth: rp.Depth, Twice: rp.Twice, ReadEvery: true, Probe: rp.Probe, FullEvery: rp.FullEvery, OnlyClosed: rp.OnlyClosed}
+		Depth: rp.Depth, Twice: rp.Twice, ReadEvery: true, Probe: rp.Probe, FullEvery: rp.FullEvery, OnlyClosed: rp.OnlyClosed, FailOpen: rp.FailOpen}
 	cfg := p.Cfg
 	switch cfg.FS {
 	case "", "crashfs":
@@ -287,8 +292,45 @@ func (r *Runner) examine(cont crashfs.Content, lossy bool, depth int) {
 		}
 		fs2.Hook = hk
 	}
+	failedAttempt := false
+	if r.FailOpen && r.Rng.Intn(3) == 0 {
+		// a failing Open attempt first
+		n, at, reads := 0, 1+r.Rng.Intn(14), r.Rng.Intn(2) == 0
+		injected := fmt.Errorf("injected transient file-system error")
+		if reads {
+			fs2.FailRead = func(kind, name string) error {
+				n++
+				if n == at {
+					return injected
+				}
+				return nil
+			}
+		} else {
+			fs2.Fail = func(c *crashfs.Call) error {
+				n++
+				if n == at {
+					return injected
+				}
+				return nil
+			}
+		}
+		hk := fs2.Hook
+		fs2.Hook = nil
+		dbf, obsf := OpenObserved(r.S.Cfg, fs2, r.Dir, r.S.Universe)
+		fs2.Fail, fs2.FailRead, fs2.Hook = nil, nil, hk
+		if obsf.Err != "" {
+			r.FailedOpens++
+			failedAttempt = true
+			r.S.R.Emit(Ev{"e": "note", "what": "an Open attempt failed with an injected error and the process exited", "err": obsf.Err, "call": at, "reads": reads})
+		} else if dbf != nil {
+			// the fault did not strike (fewer calls): the database was opened; the process dies without Close,
+			// which leaves the directory unclean by the harness's own doing
+			failedAttempt = true
+		}
+		fs2.DropLocks()
+	}
 	_, obs := OpenObserved(r.S.Cfg, fs2, r.Dir, r.S.Universe)
-	r.S.R.Emit(Ev{"e": "image", "lossy": lossy, "lock": lock})
+	r.S.R.Emit(Ev{"e": "image", "lossy": lossy, "lock": lock, "failed": failedAttempt})
 	r.S.R.Emit(obs.Event("reopened"))
 	if r.Twice && obs.Err == "" {
 		fs3 := crashfs.FromContent(cont)
@@ -333,7 +375,8 @@ func (r *Runner) continueIn(cont crashfs.Content, lossy bool) error {
 	r.crashAt = nil
 	r.callsInOp = 0
 	db, obs := OpenObserved(r.S.Cfg, fsx, r.Dir, r.S.Universe)
-	r.S.R.Emit(Ev{"e": "image", "lossy": lossy, "lock": lock})
+	failedAttempt := false
+	r.S.R.Emit(Ev{"e": "image", "lossy": lossy, "lock": lock, "failed": failedAttempt})
 	r.S.R.Emit(obs.Event("reopened"))
 	if obs.Err != "" {
 		return fmt.Errorf("continue: %s", obs.Err)
